@@ -23,8 +23,9 @@ CHECKS = {
             "Full for determinism and global state: every reference to numpy.random / random / torch RNG APIs in cola/ (three backends, including the two the "
             "sandbox cannot import) is classified; perturbing calls must lie in a get_state/set_state bracket on every path to a normal exit; keys passed to "
             "randn must derive from a parameter, PRNGKey(constant) or next_key; loop-carried keys must advance; PRNGKey/next_key must depend on their argument; "
-            "the Hutchinson loop has a cap conjunct and a +1 counter. Of unbiasedness only two necessary conditions are decided: probe/estimator conjugation agreement and that "
-            "the estimator reads the sign of the offset k (not only abs(k)). No function writes a new key into an object passed by its caller.",
+            "the Hutchinson loop has a cap conjunct and a +1 counter. Of unbiasedness only three necessary conditions are decided: probe/estimator conjugation agreement, that "
+            "the estimator reads the sign of the offset k (not only abs(k)), and that on every path of the loop body the multiplier of (A @ z) is the probe block z itself or a shift / mask of it. "
+            "The options given to Auto (tolerance, iteration cap, key) reach the estimator it constructs. No function writes a new key into an object passed by its caller.",
             "Statistical unbiasedness, variance and the Rademacher-exactness claim are not decided. Exceptional exits inside a bracket are ignored.", "4/C17"),
     "C18": ("ownership / effect analysis: flow-sensitive origins of every in-place write target, parameter-write and return-alias summaries to a fixpoint over the resolved call graph",
             "Full for non-mutation: every in-place write site in cola/ (update_array on numpy/torch, augmented assignment, subscript/attribute store, out=, mutating methods, "
@@ -115,7 +116,9 @@ CHECKS = {
             "multiplied back by the same array (linearity in b, exact zero for b = 0); every reduction on the CG state in the routine and its helpers is over the row axis (no mixing of "
             "right-hand-side columns); the reported iteration count must advance once per body execution. A degree-of-homogeneity type system (HOMOG: b has degree 1, exact zeros and "
             "division guards any degree, products add, sums need equal degrees) additionally decides that the stopping test compares quantities of equal degree (a relative tolerance), "
-            "that the returned solution has degree 1 in b, and that the counter is compared with the caller's max_iters itself, not a derived value.",
+            "that the returned solution has degree 1 in b, and that the counter is compared with the caller's max_iters itself, not a derived value. The monitored loop runner must hand "
+            "the caller's condition through unchanged on every exit of its wrapper (no stopping criterion of its own), and no reciprocal of a division guard below the smallest normal "
+            "float32 is formed (0 * inf for a zero right-hand side in single precision).",
             "Krylov optimality of the iterate, the recurrences themselves and preconditioner independence are numerical and NOT decided (a formula match of the CG recurrences was "
             "rejected: an equivalent reformulation would be a false alarm).", "4/C12"),
     "C14": ("bounded-loop certificate, constructor-argument identity, sign provenance of written entries, sesquilinear-form convention of the Gram-Schmidt step, def-use pairing",
@@ -138,7 +141,10 @@ CHECKS = {
             "Partial by construction (the value of a product is out of reach): decides that no buffer typed by one side receives data of the other side in place, that the result dtype of "
             "every product method is influenced by operator and operand, that composite shapes depend on (or validate) all parts, that 1-D operands are reshaped to a column/row and back, "
             "that to_dense multiplies an identity of the matching side size, that Transpose/Adjoint swap the shape, that the operand is split along the factors' COLUMN sizes and the "
-            "result has the operator's row count, and that every axis moved to the front is moved back by the inverse move.",
+            "result has the operator's row count, that every axis moved to the front is moved back by the inverse move, that the pieces a BlockDiag cuts its operand into are sized "
+            "by the blocks' column counts and the pieces of its result by their row counts (AXIS-TAINT: which axes of the parts' shapes an offset is computed from, through helpers and running totals), "
+            "that no product method converts its operand to a dtype that ignores it, that a blocked product loop covers the whole range (ceil count, or floor count with the last block extended), "
+            "and that a to_dense override returns the matrix the class's own product applies (TERM).",
             "Values of products (Kronecker reshaping, BlockDiag slicing, Tridiagonal shifts), nesting depth and tolerances are NOT decided. Opaque methods: FFT, Jacobian, Hessian, "
             "ConvolveND, the Krylov unary operators, user-supplied matmat.", "4/C01"),
     "C20": ("dimension-role, attribute-existence, dtype-source and guard/use agreement checks on LinearOperator.__getitem__ and Sliced; one known-bad-idiom rule",
